@@ -334,6 +334,65 @@ func checkC05On(c *Ctx, p *Prog, cfg string) {
 		}
 	}
 
+	// ---- extractCursorPos returns everything but the reports (K3)
+	r.Rule("C05.extract-keeps-rest", "K3", "extractCursorPos returns as user input either its whole argument or ReplaceAll(argument, nil) — never a part of it", 1)
+	if EX := p.Func("(*core.Keys).extractCursorPos"); EX != nil {
+		r.Fn(fnName(EX))
+		good := true
+		why := ""
+		eachInstr(EX, func(in ssa.Instruction) {
+			ret, ok := in.(*ssa.Return)
+			if !ok || in.Block() == EX.Recover || len(ret.Results) != 2 {
+				return
+			}
+			for _, v := range mayValues(ret.Results[1]) {
+				switch {
+				case v == ssa.Value(EX.Params[1]):
+				case isCallNamed(v, "(*regexp.Regexp).ReplaceAll") && v.(*ssa.Call).Call.Args[1] == ssa.Value(EX.Params[1]) && isNilConst(v.(*ssa.Call).Call.Args[2]):
+				case isNilConst(v):
+					// zero value of the named result before assignment
+				default:
+					good = false
+					why = v.String()
+				}
+			}
+		})
+		r.Check(good, "C05.extract-keeps-rest", fnName(EX)+":remain"+sfx, p.Pos(EX.Pos()), "remain = keys | ReplaceAll(keys, nil)", "extractCursorPos returns only part of the chunk as user input ("+why+"): keys typed before or after a cursor report in the same read are lost")
+	} else {
+		r.Unk("C05.extract-keeps-rest", "(*core.Keys).extractCursorPos", "-", "anchor not found")
+	}
+
+	// ---- ReadKey decodes a whole rune from the buffered keys, like it does from a fresh read (K5)
+	r.Rule("C05.readkey-rune", "K5", "ReadKey takes its key from the key buffer by decoding one UTF-8 rune and advancing by its size — the same way as from a fresh read", 1)
+	if RK := p.Func("(*core.Keys).ReadKey"); RK != nil {
+		okDecode, okAdvance := false, false
+		eachInstr(RK, func(in ssa.Instruction) {
+			cl, ok := in.(*ssa.Call)
+			if !ok || calleeName(cl) != "unicode/utf8.DecodeRune" || !isFieldLoad(cl.Call.Args[0], keysT, "buf") {
+				return
+			}
+			okDecode = true
+			// k.buf = k.buf[size:]
+			eachInstr(RK, func(x ssa.Instruction) {
+				if st, ok := isFieldStore(x, keysT, "buf"); ok {
+					if sl, ok := st.Val.(*ssa.Slice); ok && isFieldLoad(sl.X, keysT, "buf") {
+						if ex, ok := sl.Low.(*ssa.Extract); ok && ex.Tuple == ssa.Value(cl) && ex.Index == 1 {
+							okAdvance = true
+						}
+					}
+				}
+			})
+		})
+		// no other way of taking a key out of k.buf in ReadKey
+		other := false
+		eachInstr(RK, func(in ssa.Instruction) {
+			if ia, ok := in.(*ssa.IndexAddr); ok && isFieldLoad(ia.X, keysT, "buf") {
+				other = true
+			}
+		})
+		r.Check(okDecode && okAdvance && !other, "C05.readkey-rune", fnName(RK)+":buffered-key"+sfx, p.Pos(RK.Pos()), "DecodeRune(k.buf); k.buf = k.buf[size:]", "ReadKey does not take a whole rune from the buffered keys: a multi-byte argument key that arrived in the same read as its command is split into bytes, unlike the same key arriving in its own read")
+	}
+
 	// ---- drain first (K4)
 	r.Rule("C05.drain-first", "K4", "ReadKey reads the terminal only when the macro queue and the key buffer are both empty", 1)
 	if RK := p.Func("(*core.Keys).ReadKey"); RK != nil {
